@@ -138,9 +138,14 @@ def evaluate(x, M, shift=None, volume=True, deep=True):
         try:
             tsl = concretise.make_trajectory(x.copy(), species, M, time_step=1e-15)
             tsl.displacements
-            part = np.array(tsl[1:].positions)
-            if part.shape != x[1:].shape or not circ_close(part, x[1:]):
-                viols.append(('slice-of-displacement-mode-trajectory-wrong', f'got {part.reshape(-1, 3).tolist()} expected {np.mod(x[1:], 1).reshape(-1, 3).tolist()}'))
+            for k0 in (1, 2):
+                if k0 >= T:
+                    break
+                tsl.displacements
+                part = np.array(tsl[k0:].positions)
+                if part.shape != x[k0:].shape or not circ_close(part, x[k0:]):
+                    viols.append(('slice-of-displacement-mode-trajectory-wrong', f'[{k0}:] got {part.reshape(-1, 3).tolist()} expected {np.mod(x[k0:], 1).reshape(-1, 3).tolist()}'))
+                    break
         except Exception as e:  # noqa: BLE001
             viols.append((f'slice-raise-{type(e).__name__}', str(e)))
     if deep and T >= 2:
